@@ -3,9 +3,10 @@ CONSTANTS
   Structures <- ExtraStructures
   TrexDurs <- TrexBoth
   Bases = {"moof", "none", "start", "end", "exact", "both"}
-  DurModes = {"per", "tfhd", "trex", "mixA"}
+  DurModes = {"per", "tfhd", "trex", "mixA", "tfhd0"}
   CtsModes = {"none", "v0"}
   TfdtVs = {0}
+  Orders = {"asc", "desc"}
   TrexPerTrack = FALSE
   MdatFirsts = {FALSE, TRUE}
   Deliveries = {"one", "split"}
